@@ -89,7 +89,12 @@ fn run_scenario(sc: &Value, t: &mut Tracer) {
 					}
 					Value::Null
 				});
-				t.ev(json!({"a": "cmd", "c": c, "v": v, "w": w}));
+				// (mid: written while a callback is running, after it has read its command slots)
+				if audio_running {
+					t.ev(json!({"a": "cmd", "c": c, "v": v, "w": w, "mid": true}));
+				} else {
+					t.ev(json!({"a": "cmd", "c": c, "v": v, "w": w}));
+				}
 				matches!(st, Status::Done(_))
 			}
 			"StopA" => {
@@ -384,7 +389,8 @@ fn run_sched(sc: &Value, t: &mut Tracer) {
 	let what = sc["what"].as_str().unwrap();
 	let w = sc["w"].as_u64().unwrap();
 	let dur = sc["d"].as_u64().unwrap_or(0);
-	t.reset(json!({"mode": "sched", "what": what, "w": w, "d": dur, "src": sc["src"]}));
+	let paused = sc["paused"].as_bool().unwrap_or(false);
+	t.reset(json!({"mode": "sched", "what": what, "w": w, "d": dur, "paused": paused, "src": sc["src"]}));
 	let mut sim = Sim::basic();
 	let tone = |amp: f32| StaticSoundData {
 		sample_rate: RATE,
@@ -433,6 +439,15 @@ fn run_sched(sc: &Value, t: &mut Tracer) {
 	}
 	let _ = sim.callback(NF);
 	let base = sim.callback(NF).out[0];
+	if paused {
+		// the clock runs past tick w and is paused before anything is scheduled
+		clock.start();
+		for _ in 0..(w + 1) {
+			let _ = sim.callback(NF);
+		}
+		clock.pause();
+		let _ = sim.callback(NF);
+	}
 	let at = StartTime::ClockTime(ClockTime { clock: clock.id(), ticks: w, fraction: 0.0 });
 	let tw = Tween { start_time: at, duration: chunks(dur), easing: Easing::Linear };
 	let mut other_before = other.as_ref().map(|o| units(o.time())).unwrap_or(0);
@@ -453,12 +468,18 @@ fn run_sched(sc: &Value, t: &mut Tracer) {
 		}
 		x => panic!("unknown kind {x}"),
 	}
-	clock.start();
+	if !paused {
+		clock.start();
+	}
 	// the published time of a clock is the time at the start of the callback: what is read after callback j tells what
 	// the other clock did in buffer j - 1
 	let lag = what.starts_with("clock_speed");
 	let mut obs = vec![];
-	for _ in 0..(w + dur + 4 + lag as u64) {
+	let total = if paused { 6 } else { w + dur + 4 + lag as u64 };
+	for j in 0..total {
+		if paused && j == 3 {
+			clock.start();
+		}
 		let res = sim.callback(NF);
 		if let Some(m) = res.panicked {
 			t.ev(json!({"a": "panic", "who": "audio", "msg": m}));
@@ -480,8 +501,9 @@ fn run_sched(sc: &Value, t: &mut Tracer) {
 		};
 		obs.push(begun);
 	}
-	for b in obs.iter().skip(lag as usize) {
-		t.ev(json!({"a": "cb", "begun": b}));
+	for (j, b) in obs.iter().skip(lag as usize).enumerate() {
+		// tk: the clock was ticking during this buffer (paused variant: it is started again before the fourth)
+		t.ev(json!({"a": "cb", "begun": b, "tk": !paused || j >= 3}));
 	}
 	t.ev(json!({"a": "end"}));
 }
